@@ -213,3 +213,83 @@ func topicSweep(run *hx.Run, r *hx.Rng) {
 		}
 	}
 }
+
+// largeCommitteeLimits: committees of 10 and 13 operators with EVERY operator active in one slot and round (proposal, n prepares,
+// n commits — more distinct signers than a 4- or 7-committee can show), then each per-signer limit is probed again for EARLY and
+// late signers: the leader's second proposal with different data, repeated prepare / commit, going back a round after n round
+// changes, going back a slot. The per-signer state of every committee member must survive whatever the others send.
+func largeCommitteeLimits(run *hx.Run, r *hx.Rng, idx int) {
+	w := world([]int{10, 13}[idx%2])
+	ks := w.KS
+	n := uint64(w.N)
+	id := []byte{1, 2, 3, 4}
+	root := tu.TestingQBFTRootData
+	role := consensusRoles[r.Intn(2)]
+	s := uint64(baseSlot + 4 + 2*r.Intn(4))
+	at := func(off time.Duration) time.Time { return w.SlotStart(s).Add(off) }
+	c := NewCase(run, w, false, fmt.Sprintf("targeted/large-committee-%d", n))
+	l := leaderOf(w, s, 1)
+	p1 := tu.TestingProposalMessageWithParams(ks.Shares[l], l, 1, specqbft.Height(s), root, nil, nil)
+	c.ValidateSSV(kitSSV(w, role, p1), at(4*time.Second), Env{Mode: "n"}, "large:proposal")
+	order := r.Perm(int(n))
+	k := time.Duration(0)
+	for _, i := range order {
+		op := uint64(i + 1)
+		m := tu.TestingPrepareMessageWithParams(ks.Shares[op], op, 1, specqbft.Height(s), id, root)
+		m.FullData = nil
+		k++
+		c.ValidateSSV(kitSSV(w, role, m), at(4*time.Second+k*time.Millisecond), Env{Mode: "n"}, "large:prepare")
+	}
+	second := func(kind string) {
+		p2 := tu.TestingProposalMessageWithParams(ks.Shares[l], l, 1, specqbft.Height(s), root, nil, nil)
+		p2.FullData = append([]byte{7}, p2.FullData...)
+		p2.Message.Root, _ = specqbft.HashDataRoot(p2.FullData)
+		k++
+		c.ValidateSSV(kitSSV(w, role, p2), at(4*time.Second+k*time.Millisecond), Env{Mode: "n"}, kind)
+	}
+	second("large:second-proposal-after-all-prepares")
+	// every signer's prepare again (a second prepare per signer and round must be refused, for the first signers as for the last)
+	for _, i := range order {
+		op := uint64(i + 1)
+		m := tu.TestingPrepareMessageWithParams(ks.Shares[op], op, 1, specqbft.Height(s), id, root)
+		m.FullData = nil
+		k++
+		c.ValidateSSV(kitSSV(w, role, m), at(4*time.Second+k*time.Millisecond), Env{Mode: "n"}, "large:prepare-again")
+	}
+	for _, i := range order {
+		op := uint64(i + 1)
+		m := tu.TestingCommitMessageWithParams(ks.Shares[op], op, 1, specqbft.Height(s), id, root)
+		m.FullData = nil
+		k++
+		c.ValidateSSV(kitSSV(w, role, m), at(4*time.Second+k*time.Millisecond), Env{Mode: "n"}, "large:commit")
+	}
+	second("large:second-proposal-after-all-commits")
+	// round changes to round 2 by everybody, then round-1 messages of early signers (going back in round)
+	for _, i := range order {
+		op := uint64(i + 1)
+		m := tu.TestingRoundChangeMessageWithParams(ks.Shares[op], op, 2, specqbft.Height(s), root, 0, nil)
+		m.FullData = nil
+		m.Message.Root = [32]byte{}
+		k++
+		c.ValidateSSV(kitSSV(w, role, m), at(7*time.Second+k*time.Millisecond), Env{Mode: "n"}, "large:round-change")
+	}
+	for _, i := range order[:3] {
+		op := uint64(i + 1)
+		m := tu.TestingCommitMessageWithParams(ks.Shares[op], op, 1, specqbft.Height(s), id, root)
+		m.FullData = nil
+		k++
+		c.ValidateSSV(kitSSV(w, role, m), at(7*time.Second+k*time.Millisecond), Env{Mode: "n"}, "large:back-in-round")
+	}
+	// the next slot by everybody, then the old slot again by an early signer (going back in slot)
+	for _, i := range order {
+		op := uint64(i + 1)
+		m := tu.TestingPrepareMessageWithParams(ks.Shares[op], op, 1, specqbft.Height(s+1), id, root)
+		m.FullData = nil
+		k++
+		c.ValidateSSV(kitSSV(w, role, m), w.SlotStart(s+1).Add(5*time.Second+k*time.Millisecond), Env{Mode: "n"}, "large:next-slot")
+	}
+	op := uint64(order[0] + 1)
+	m := tu.TestingPrepareMessageWithParams(ks.Shares[op], op, 2, specqbft.Height(s), id, root)
+	m.FullData = nil
+	c.ValidateSSV(kitSSV(w, role, m), w.SlotStart(s+1).Add(6*time.Second), Env{Mode: "n"}, "large:back-in-slot")
+}
